@@ -1151,8 +1151,8 @@ theorem prefix_of_both : ∀ (P K : List Nib) (i j : Nib) (x y r1 r2 : List Nib)
         exact ⟨s, by rw [hs, e1]; rfl⟩
       · cases h1
 
-theorem ext_key_eq {K K' : List Nib} {ch ch' : Nib → Node} (hK : NoTerm K) (hK' : NoTerm K')
-    (ha : Canon (.full ch)) (hb : Canon (.full ch'))
+theorem ext_key_eq {K K' : List Nib} {ch ch' : Nib → Node} (hK : NoTerm K) (_hK' : NoTerm K')
+    (ha : Canon (.full ch)) (_hb : Canon (.full ch'))
     (hsem : ∀ k, TermKey k → Mpt.get (.short K (.full ch)) k = Mpt.get (.short K' (.full ch')) k) :
     ∃ s, K = K' ++ s := by
   obtain ⟨i, j, k1, k2, v1, v2, hij, ht1, ht2, hg1, hg2⟩ := two_keys_of_ext hK ha
